@@ -522,7 +522,10 @@ class _GenerateRenderMethod:
         if has_loop:
             self.printer.writeline("loop = __M_loop = runtime.LoopStack()")
 
-        for ident in to_write:
+        # the order of a set follows the string hash seed.  emit in a stable
+        # order, and fetch names from namespaces and the context before
+        # defining closures, whose argument defaults may refer to them
+        for ident in sorted(to_write, key=lambda i: (i in comp_idents, i)):
             if ident in comp_idents:
                 comp = comp_idents[ident]
                 if comp.is_block:
